@@ -692,6 +692,9 @@ package ast
 //@   atcall WriteRune blank: !defined(curr_ch) && wsByte(arg1) && !(current_state == SSTRING_DOUBLE || current_state == SSTRING_SINGLE || current_state == SSTRING_D_ESCAPE || current_state == SSTRING_S_ESCAPE || current_state == SCOMMENTSTART || current_state == SCOMMENT || current_state == SBLOCKCOMMENT || current_state == SBLOCKCOMMENTSTARTEND || current_state == SBLOCKCOMMENTENDEND || current_state == SBLOCKCOMMENTFINAL) ==> current_state == SWHITESPACE [C15]
 //@   atcall unread_last blockcomment: (current_state == SBLOCKCOMMENT || current_state == SBLOCKCOMMENTSTARTEND || current_state == SBLOCKCOMMENTENDEND) ==> ch == 0 [C15]
 //@   atcall unread_last linecomment: current_state == SCOMMENT ==> ch == 0 || ch == '\n' [C15]
+// inside a string literal no character is pushed back (only the end of input is): an escape that turns out
+// incomplete keeps its characters, it does not hand them back to the string state
+//@   atcall unread_last instring: (current_state == SSTRING_DOUBLE || current_state == SSTRING_SINGLE || current_state == SSTRING_D_ESCAPE || current_state == SSTRING_S_ESCAPE) ==> ch == 0 [C16]
 //@   atcall WriteRune plain: (current_state == SSTRING_DOUBLE || current_state == SSTRING_SINGLE) ==> arg1 == ch [C16]
 //@   atcall WriteRune escape: (current_state == SSTRING_D_ESCAPE || current_state == SSTRING_S_ESCAPE) && !defined(hex) ==> ch != 'x' && arg1 == escOf(ch) [C16]
 //@   atcall WriteRune hex: (current_state == SSTRING_D_ESCAPE || current_state == SSTRING_S_ESCAPE) && defined(hex) ==> ch == 'x' && ((len(hex) == 2 && isHexC(hex[0]) && isHexC(hex[1])) ? arg1 == 16 * hexVal(hex[0]) + hexVal(hex[1]) : (arg1 == 'x' && s.r.pos >= 1 && sat(s.r.data, s.r.pos - 1) == 'x')) [C16]
@@ -736,6 +739,11 @@ package ast
 //@ func parse_regexp_pattern [C14]
 //@   ensures chain: result.2 == nil ==> result.1 == patEnd(regexp, index) [C14]
 //@   ensures alt: result.2 == nil && litEnd(regexp, index) < len(regexp) && sat(regexp, litEnd(regexp, index)) == '|' ==> result.0 is *AstBranch && (result.0 as *AstBranch) != nil && (result.0 as *AstBranch).Left is *AstSubExpr [C14]
+
+// (AstList).GetMaxSize: a maximum over a dynamic dispatch; abstracted at its call in the generator
+// (no functional postcondition is assumed; that it neither panics nor writes is).
+//@ func (AstList).GetMaxSize [C01]
+//@   trusted
 
 // ---- keyword recognition (C15): the token type of a word is a function of its lower-cased text ----
 // 52 keywords, read from the lexer's switch by tools/gen_keywords.py
